@@ -250,3 +250,22 @@ package cli
 //@ ensures implies(nonnil(l.Record) && old(isnil(previousRecord)), result != nil && !result.isSub && klog.dmin(result.d) == service.recTotal(l.Record))
 //@ ensures implies(nonnil(l.Record) && old(nonnil(previousRecord)) && l.EntryI != -1 && l.EntryI != old(previousEntry), result != nil && result.isSub && klog.dmin(result.d) == klog.edur(l.Record.(*klog.record).entries[l.EntryI]))
 //@ ensures implies(nonnil(l.Record) && old(nonnil(previousRecord)) && (l.EntryI == -1 || l.EntryI == old(previousEntry)), result == nil)
+
+// bookmarks.go — `bookmarks set`, the command's own steps (property C19), cuts only: the file that is created
+// (--create), the file whose validity is checked (unless --force) and the file the bookmark points to are one and the
+// same resolved file: the check reads the resolved absolute path, never the raw argument (which could be taken for a
+// bookmark name); the bookmark carries the given name (or is the default one) and that file.
+//@ func (*BookmarksSet).Run
+//@ requires opt != nil && nonnil(ctx)
+//@ noframe
+//@ cutsonly
+//@ before NewFile assert len(arg0) == 1 && same(arg0[0], opt.File)
+//@ before CreateEmptyFile assert arg0 == file && opt.Create
+//@ before ReadInputs assert len(arg0) == 1 && same(arg0[0], file.Path()) && !opt.Force
+//@ ensures true
+//@ func (*BookmarksSet).Run$1
+//@ noframe
+//@ cutsonly
+//@ before NewDefaultBookmark assert arg0 == file && len(opt.Name) == 0
+//@ before NewBookmark assert same(arg0, opt.Name) && arg1 == file
+//@ ensures true
